@@ -210,9 +210,14 @@ func (i *Interpreter) pushLoadedFragment(pathset string, units []parse.SourceUni
 		return err
 	}
 	i.pushSourceFragment(pathset, units, programInfo)
-
+	if err := i.evalProgram(programInfo); err != nil {
+		// A fragment that cannot be evaluated is not kept: it goes away
+		// together with the facts that were derived before the error.
+		i.popSourceFragment()
+		return fmt.Errorf("evaluation failed: %w", err)
+	}
 	fmt.Fprintf(i.out, "loaded %s.\n", pathset)
-	return i.evalProgram(programInfo)
+	return nil
 }
 
 // ParseQuery parses a query string. It can either be a predicate name,
